@@ -389,7 +389,7 @@ pub fn gen_c09(rng: &mut Rng, caseid: u64, unix: bool, bound_ms: u64) -> Gen {
     let finish = match rng.below(3) {
         0 => Finish::Respond { status: 200, body_len: 20, declared: true, threshold: None, max_piece: 1000 },
         1 => Finish::Drop,
-        _ => Finish::Writer { status: 200, body_len: 20, parts: vec![(30, false), (1000, true)], early_drop_sleep_us: 0 },
+        _ => Finish::Writer { status: 200, body_len: 20, parts: vec![(30, false), (1000, true)], early_drop_sleep_us: 0, vectored: rng.chance(1, 2) },
     };
     // a zero-length read (`read(&mut [])`) somewhere in the middle is an ordinary thing for an
     // application to do; message boundaries must hold after it as well
@@ -422,7 +422,11 @@ pub fn gen_c09(rng: &mut Rng, caseid: u64, unix: bool, bound_ms: u64) -> Gen {
 // ---------------------------------------------------------------------------------------------
 // C10
 
-const BAD_VERSIONS: &[&str] = &["HTTP/1.2", "HTTP/2", "HTTP/1.10", "http/1.1", "HTTP/1.1x", "FOO", "HTTP/", "1.1", "HTTP/01.1", "HTTP/4.0", "HTTP/2.1", "HTTP/1.", "HTTPS/1.1"];
+const BAD_VERSIONS: &[&str] = &[
+    "HTTP/1.2", "HTTP/2", "HTTP/1.10", "http/1.1", "HTTP/1.1x", "FOO", "HTTP/", "1.1", "HTTP/01.1", "HTTP/4.0", "HTTP/2.1", "HTTP/1.", "HTTPS/1.1",
+    // numerically equal to a recognised version, but not one of the recognised tokens
+    "HTTP/1.01", "HTTP/1.00", "HTTP/+1.1", "HTTP/1.+1", "HTTP/1.+0", "HTTP/001.1", "HTTP/002.0", "HTTP/03.0", "HTTP/0.09", "HTTP/1.1.0", "HTTP/ 1.1", "HTTP/1,1",
+];
 const HIGH_VERSIONS: &[&str] = &["HTTP/2.0", "HTTP/3.0"];
 const BAD_EXPECTS: &[&str] = &["100-continu", "200-ok", "", "100-continue, foo", "xyz", "100", "continue", "100-continue;q=1", "101-continue"];
 
